@@ -40,6 +40,7 @@ package deployment
 //@ ensures accounted: result2 == nil ==> $scaledDown - old($scaledDown) == result1
 //@ ensures within_budget: $scaledDown - old($scaledDown) <= imax(maxCleanupCount, 0) && $scaledDown - old($scaledDown) >= 0
 //@ ensures only_unavailable: $availRemoved == old($availRemoved)
+//@ ensures same_slice: result2 == nil ==> result0 == oldRSs && wfRSs(result0)
 //@ loop 1 invariant -1 <= rangeindex && rangeindex < len(oldRSs)
 //@ loop 1 invariant totalScaledDown == $scaledDown - atloop($scaledDown) && 0 <= totalScaledDown && totalScaledDown <= imax(maxCleanupCount, 0)
 //@ loop 1 invariant $availRemoved == atloop($availRemoved)
